@@ -4,10 +4,10 @@ package main
 
 import (
 	"fmt"
-	"math/big"
 	"go/ast"
 	"go/token"
 	"go/types"
+	"math/big"
 	"os"
 	"path/filepath"
 	"regexp"
@@ -428,6 +428,7 @@ func (o *Obligation) queryWith(extra []Term) string { return o.querySel(extra, f
 var defRe = regexp.MustCompile(`^\(assert \(= ([A-Za-z_][A-Za-z0-9_.]*![0-9]+) `)
 
 const predAxiomPrefix = "(assert (forall ((v!pred Int)) (! (= ("
+
 // predAxiomName extracts the predicate symbol defined by a predicate-definition axiom ("" if a is none).
 func predAxiomName(a string) string {
 	if strings.HasPrefix(a, "(assert (= P_") {
@@ -539,27 +540,36 @@ func (o *Obligation) queryFull(extra []Term, selectPremises bool, local bool) st
 			}
 		}
 	}
-	// definitions of named set predicates: only those reachable from the obligation (cone of influence)
-	if len(predAxioms) > 0 {
+	// definitions of named set predicates: only those reachable from the obligation (cone of influence), together
+	// with the bridges between instances (family bridges when both ends occur, join bridges as soon as the merged end occurs)
+	{
 		used := make([]bool, len(predAxioms))
+		usedBr := make([]bool, len(e.predBridges))
+		has := func(name string) bool {
+			return strings.Contains(txt, "("+name+" ") || strings.Contains(txt, " "+name+")") || strings.Contains(txt, " "+name+" ")
+		}
 		for changed := true; changed; {
 			changed = false
 			for i, a := range predAxioms {
 				if used[i] {
 					continue
 				}
-				name := predAxiomName(a)
-				if strings.Contains(txt, "("+name+" ") || strings.Contains(txt, " "+name+")") || strings.Contains(txt, " "+name+" ") {
+				if has(predAxiomName(a)) {
 					used[i] = true
 					txt = a + "\n" + txt
 					changed = true
 				}
 			}
-		}
-	}
-	for _, br := range e.predBridges {
-		if br.ndecl <= o.NDecl && strings.Contains(txt, "("+br.from+" ") && strings.Contains(txt, "("+br.to+" ") {
-			txt = br.text + "\n" + txt
+			for i, br := range e.predBridges {
+				if usedBr[i] || br.ndecl > o.NDecl {
+					continue
+				}
+				if (br.join && has(br.from)) || (!br.join && has(br.from) && has(br.to)) {
+					usedBr[i] = true
+					txt = br.text + "\n" + txt
+					changed = true
+				}
+			}
 		}
 	}
 	var b strings.Builder
@@ -645,7 +655,6 @@ func discharge(obls []*Obligation, opts *Options) {
 	wg.Wait()
 }
 
-
 // dischargeOne tries, in order: premise selection on the whole obligation, premise selection
 // per joined path, all premises on the whole obligation, all premises per joined path.
 // Every variant is a sound weakening of the same obligation (fewer premises / case split).
@@ -721,7 +730,6 @@ func dischargeOne(o *Obligation, budget float64) SolverResult {
 	return r
 }
 
-
 // useLemma adds the universally quantified closure of a lemma procedure's contract
 // (forall parameters and heaps: requires ==> ensures) as a premise. The lemma procedure is
 // itself verified (its obligations belong to every property that uses it).
@@ -787,7 +795,6 @@ func (e *Exec) useLemma(st *State, name string) {
 	e.note("lemma", fmt.Sprintf("closure of lemma procedure %s used as a premise (the procedure is verified by induction in the same run)", key))
 }
 
-
 // pureLemmaParts translates a pure lemma (no Go code): binders, precondition, conclusion, measure, patterns.
 func (e *Exec) pureLemmaParts(ct *Contract, prefix string) (binders []string, vars []Term, pre, post Term, measure Term, pats []string) {
 	tpkg := e.prog.Pkgs[ct.Pkg].Types
@@ -848,7 +855,8 @@ func (e *Exec) usePureLemma(key string, ct *Contract, asIH bool) {
 }
 
 // verifyPureLemma generates the induction obligation of a pure lemma:
-//   (forall y. 0 <= m(y) < m(x) && pre(y) ==> post(y))  &&  pre(x)  ==>  post(x)   and   m(x) >= 0.
+//
+//	(forall y. 0 <= m(y) < m(x) && pre(y) ==> post(y))  &&  pre(x)  ==>  post(x)   and   m(x) >= 0.
 func verifyPureLemma(prog *Program, ct *Contract, opts *Options) (fr *FuncResult) {
 	t0 := time.Now()
 	fr = &FuncResult{Key: ct.Key}
@@ -908,7 +916,6 @@ func verifyPureLemma(prog *Program, ct *Contract, opts *Options) (fr *FuncResult
 	e.obligeNamed(st, ct.Key+"/post#0", "post", "", post, "pure lemma by induction on its measure", 0)
 	return
 }
-
 
 // bindIfaceNames: when a method implementation is verified against the contract of the
 // interface method, the contract's names (this, a0.., and the interface's own parameter names)
@@ -1020,7 +1027,6 @@ func ifaceContractFor(prog *Program, fi *FuncInfo) *Contract {
 	}
 	return nil
 }
-
 
 // verifyRefine checks that a method's own contract refines the contract of the interface method
 // it implements (so that dynamic callers, who only know the interface contract, are served):
